@@ -1,5 +1,5 @@
 (* C06 -- proofs, part 2: /proc/<pid>/stat and the accessors it feeds. *)
-From PV Require Import C06.Spec C06.Lib.
+From PV Require Import C06.Spec C06.Lib C06.ProofsCodec.
 
 Definition wf_kstat0 (r : kstat) : bool := is_dec (k_pid r) && forallb fld_ok (k_after r).
 
@@ -127,6 +127,18 @@ Theorem name_exact r : wf_kstat r = true -> name (k_stat r) = Val (k_comm r).
 Proof.
   intros H. use_roundtrip r H x Hx Hp F. unfold name. rewrite Hp. cbn [obind].
   destruct F as (-> & _). reflexivity.
+Qed.
+
+(* the str that name() returns is os.fsdecode(comm) under the interpreter's encoding ... *)
+Theorem name_str_exact e r : wf_kstat r = true -> name_str e (k_stat r) = Val (fs_decode e (k_comm r)).
+Proof. intros H. unfold name_str. now rewrite name_exact. Qed.
+
+(* ... and os.fsencode() of it gives back exactly the bytes the kernel publishes *)
+Theorem name_str_roundtrip e r :
+  wf_kstat r = true -> wf_bytes (k_comm r) = true ->
+  exists s, name_str e (k_stat r) = Val s /\ fs_encode e s = Some (k_comm r).
+Proof.
+  intros H Hb. exists (fs_decode e (k_comm r)). split; [now apply name_str_exact|now apply fs_roundtrip].
 Qed.
 
 Theorem ppid_exact r d :
